@@ -197,7 +197,7 @@ func faultPoints(c *rig.Check, idx int, h *stor.History, lg *systrace.Log, lay *
 			all = append(all, fault{Kind: "rlimit", From: st, To: to, Limit: base + d})
 		}
 	}
-	n := c.N(70, 100000)
+	n := c.N(48, 100000)
 	if len(all) <= n {
 		return all
 	}
@@ -525,7 +525,7 @@ func TestCheck(t *testing.T) {
 		rig.ReadJSON(p, &w)
 		specs = append(specs, w.Witness.Spec)
 	} else {
-		n := c.N(16, 150)
+		n := c.N(16, 120)
 		for i := 0; i < n; i++ {
 			specs = append(specs, spec{Idx: i, Hist: genHistory(c, i)})
 		}
